@@ -384,7 +384,8 @@ def _has_cycle(t):
         return False
     if t and t[0] == "unknown" and len(t) > 1 and t[1] in ("cycle", "deep"):
         return True
-    return any(_has_cycle(x) for x in t[1:] if isinstance(x, tuple))
+    # argument lists are tuples of terms (their first element is a term too, not a tag)
+    return any(_has_cycle(x) for x in (t if t and isinstance(t[0], tuple) else t[1:]) if isinstance(x, tuple))
 
 
 # ---------- helpers over terms ----------
